@@ -79,6 +79,7 @@ def obligations(ctx: Ctx):
     try:
         from props import C15_b
 
+        obs.append(Ob(f"{P}.B2", "B", "a change of the TYPE of one leaf (404 vs \"404\", true vs \"true\", null vs \"null\") under any key, in any position, invalidates the seal", FUNCS, C15_b.ob_b2, timeout=3000))
         obs.append(Ob(f"{P}.B1", "B", "model documents: seal/verify in memory and through text, re-seal, single-site tampering => INVALID, cosmetic respelling => VERIFIED", FUNCS, C15_b.ob_b1, timeout=3000))
     except ImportError:
         pass
